@@ -4,6 +4,7 @@ import PharmpyModel.C01.Advan
 import PharmpyModel.C01.Omega
 import PharmpyModel.C01.Des
 import PharmpyModel.C01.Rates
+import PharmpyModel.C01.Theta
 open Pharmpy Pharmpy.C01
 
 /-
@@ -20,6 +21,7 @@ open Pharmpy Pharmpy.C01
     (wiring ADVANn)             → (codeObs specObs codeDose specDose)
     (omegaparse rec …)          → per record (ok (exact|sq fix same (inits…)) …) | (err kind)     model of OmegaRecord.parse
     (omegacov rec …)            → ((exact|sq n fix (lower triangle…)) …) | (err kind)            covariance blocks after SAME
+    (thetas ((id n) …) (ev …)) …)   → ((names (name|~ …) …) (params id …|err))   model of comment_names / parse_thetas / parse_parameters;  ev := (t n) | (c name) | (c)
     (findrates ncomps (name …))   → ((from to name) …) | (err raises)      model of _find_rates (exact-match recogniser)
     (des ((mono coef (amt …)) …) …)   → ((flows (from to mono coef divisor) …) (rest ((mono coef) …) …) (safe|unsafe class …))   model of to_compartmental_system
       rec := (diag (v reps sd var fix) …) | (block n sd corr chol fix (v reps) …) | (same);  v := p/q
@@ -31,6 +33,28 @@ open Pharmpy Pharmpy.C01
 -/
 
 def bad : Sexp := .list [.atom "err", .atom "bad-op"]
+
+def thEv? : Sexp → Option Theta.Ev
+  | .list [.atom "t", n] => do some (.theta (← n.asNat?))
+  | .list [.atom "c", .atom nm] => some (.comment (some nm))
+  | .list [.atom "c"] => some (.comment none)
+  | _ => none
+
+def thItem? : Sexp → Option (Theta.Item Nat Unit Unit)
+  | .list [i, n] => do some { init := ← i.asNat?, bound := (), fix := (), n := ← n.asNat? }
+  | _ => none
+
+def thRec? : Sexp → Option (Theta.Rec Nat Unit Unit)
+  | .list [.list items, .list evs] => do some { items := ← items.mapM thItem?, evs := ← evs.mapM thEv? }
+  | _ => none
+
+def thetasS (recs : List (Theta.Rec Nat Unit Unit)) : Sexp :=
+  let nameS : Option String → Sexp := fun o => match o with | some s => .atom s | none => .atom "~"
+  let names := recs.map (fun r => Sexp.list ((Theta.commentNames r.evs).map nameS))
+  let params := match Theta.readThetas recs with
+    | some ps => Sexp.ofNats (ps.map (·.1))
+    | none => .atom "err"
+  .list [.list (.atom "names" :: names), .list [.atom "params", params]]
 
 def item? : Sexp → Option Item
   | .list [.atom "=", .atom x, e] => do some (.asg x (← Expr.ofSexp? e))
@@ -286,6 +310,10 @@ def handle (req : Sexp) : Sexp :=
   | .list [.atom "des", p] =>
     match dprog? p with
     | some p => desS p
+    | none => bad
+  | .list (.atom "thetas" :: recs) =>
+    match recs.mapM thRec? with
+    | some recs => thetasS recs
     | none => bad
   | .list [.atom "findrates", n, names] =>
     match n.asNat?, symList? names with
